@@ -190,18 +190,38 @@ def _header(g, node, with_kid):
     return h
 
 
+class AppEncoder(json.JSONEncoder):
+    """the application's own JSON encoder (what encoder_cls is for): values json does not know, written its way"""
+
+    def default(self, o):
+        if isinstance(o, datetime.datetime):
+            return o.isoformat()
+        if isinstance(o, (set, frozenset)):
+            return sorted(o)
+        if isinstance(o, bytes):
+            return o.hex()
+        return super().default(o)
+
+
 def _roundtrip(g, node, label, res, tr, tz):
     from joserfc import jwt
     claims, expected = gen_claims(g.sub("claims"))
+    enc_kw = {}
+    if g.chance(0.2):
+        # the caller's encoder takes care of *its* values; exp / nbf / iat given as datetime are NumericDate whatever encoder is used
+        enc_kw = {"encoder_cls": AppEncoder}
+        claims["app"] = {"tags": {"b", "a"}, "blob": b"\x01\x02"}
+        expected["app"] = {"tags": ["a", "b"], "blob": "0102"}
+        res.probe("custom-encoder_cls")
     keykind = g.pick(["key", "set", "callable"])
     header = _header(g, node, with_kid=g.chance(0.4))
     header_before = copy.deepcopy(header)
     given = copy.deepcopy(claims)
     repro = {"kind": "roundtrip", "tz": tz, "transport": node.transport, "alg": node.alg, "enc": node.enc, "key": rk.to_jwk(node.key, True),
-             "header": header_before, "claims": _claims_json(claims), "keykind": keykind}
+             "header": header_before, "claims": _claims_json(claims), "keykind": keykind, "encoder": bool(enc_kw)}
     res.case(label, "roundtrip")
     try:
-        tok = jwt.encode(header, given, node.keyarg(keykind, True), registry=node.registry())
+        tok = jwt.encode(header, given, node.keyarg(keykind, True), registry=node.registry(), **enc_kw)
     except Exception as e:
         res.violation(ID, "encode:refused-json-object-claims:%s" % type(e).__name__, "jwt.encode refused a JSON-object claims set: %s: %s" % (
             type(e).__name__, str(e)[:100]), repro)
@@ -233,6 +253,25 @@ def _roundtrip(g, node, label, res, tr, tz):
                 got.pop(k, None)
     if got != want_header:
         res.violation(ID, "roundtrip:header-differs", "decoded header %r, expected %r" % (got, want_header), dict(repro, token=tok))
+    # the returned token is the application's: it edits claims and header, then the same JWT is presented again
+    try:
+        out.claims["edited-by"] = "application"
+        for v in out.claims.values():
+            if isinstance(v, list):
+                v.append("edited")
+            elif isinstance(v, dict):
+                v["edited"] = True
+        out.header["edited-by"] = "application"
+        again = jwt.decode(tok, node.keyarg(keykind, False), registry=node.registry())
+        res.fired("same-jwt-again-after-caller-edited-the-result")
+        if not json_eq(again.claims, expected):
+            res.violation(ID, "roundtrip:claims-differ:second-decode", "the same token decoded a second time, after the application edited the first result, gives "
+                          "claims %r" % _short({k: again.claims.get(k) for k in again.claims if not json_eq(again.claims.get(k), expected.get(k, "<absent>"))}),
+                          dict(repro, token=tok))
+        if "edited-by" in again.header:
+            res.violation(ID, "roundtrip:header-differs:second-decode", "the header of the second decode carries the application's edit of the first", dict(repro, token=tok))
+    except Exception as e:
+        res.violation(ID, "decode:rejected-own-token:second-decode:%s" % type(e).__name__, "second decode of the same token failed: %s" % str(e)[:100], dict(repro, token=tok))
     if len(res.samples) < 2:
         res.sample({"tz": tz, "transport": [node.transport, node.alg, node.enc], "claims": _claims_json(claims), "header": header_before})
 
@@ -327,7 +366,8 @@ def _wire(g, node, label, res, tr):
 
 
 def _claims_json(claims):
-    return {k: ({"$datetime": v.isoformat()} if isinstance(v, datetime.datetime) else v) for k, v in claims.items()}
+    # "app" (values for the custom encoder) is re-created from the "encoder" flag of the replay file
+    return {k: ({"$datetime": v.isoformat()} if isinstance(v, datetime.datetime) else v) for k, v in claims.items() if k != "app"}
 
 
 def _claims_from_json(d):
@@ -376,8 +416,13 @@ def replay(repro: dict):
                     else:
                         expected[k] = v
                 header = copy.deepcopy(repro["header"])
+                enc_kw = {}
+                if repro.get("encoder"):
+                    enc_kw = {"encoder_cls": AppEncoder}
+                    claims["app"] = {"tags": {"b", "a"}, "blob": b"\x01\x02"}
+                    expected["app"] = {"tags": ["a", "b"], "blob": "0102"}
                 try:
-                    tok = jwt.encode(header, copy.deepcopy(claims), node.keyarg(repro["keykind"], True), registry=node.registry())
+                    tok = jwt.encode(header, copy.deepcopy(claims), node.keyarg(repro["keykind"], True), registry=node.registry(), **enc_kw)
                     if header != repro["header"]:
                         out.append(("encode:callers-header-altered", "altered"))
                     got = jwt.decode(tok, node.keyarg(repro["keykind"], False), registry=node.registry())
@@ -394,6 +439,15 @@ def replay(repro: dict):
                                 g.pop(k, None)
                     if g != want:
                         out.append(("roundtrip:header-differs", "%r != %r" % (g, want)))
+                    got.claims["edited-by"] = "application"
+                    for v in got.claims.values():
+                        if isinstance(v, list):
+                            v.append("edited")
+                        elif isinstance(v, dict):
+                            v["edited"] = True
+                    again = jwt.decode(tok, node.keyarg(repro["keykind"], False), registry=node.registry())
+                    if not json_eq(again.claims, expected):
+                        out.append(("roundtrip:claims-differ:second-decode", "%r" % (again.claims,)))
                 except Exception as e:
                     out.append(("decode:rejected-own-token:%s" % type(e).__name__, str(e)))
                     out.append(("encode:refused-json-object-claims:%s" % type(e).__name__, str(e)))
